@@ -229,13 +229,26 @@ def _one(d, ctx, kinds, **gen_kw):
 
     def cb(**kw):
         trace.append((kw['model'], kw['affiliation']))
+    # "every fitted model": also the one fit_predict trains and does not hand
+    # out (observed through the hook after every M-step, like the in-loop
+    # models of fit)
+    method = 'fit'
+    if hasattr(mm.trainer_cls(case.kind), 'fit_predict') and \
+            d.aux(97).integers(0, 4) == 0:
+        method = 'fit_predict'
+    ctx.label('via-' + method)
     _verif.register(cb)
     try:
-        model = ctx.lib(mm.fit, case, allow=() if regular else mm.EXPLICIT,
+        model = ctx.lib(mm.fit, case, method=method,
+                        allow=() if regular else mm.EXPLICIT,
                         allow_if=mm.explicit_refusal,
                         clause='regular-input-raises')
     finally:
         _verif.unregister(cb)
+    if method == 'fit_predict':
+        if len(trace) != case.iterations:
+            raise Borderline('fit_predict: models not observable (hook off)')
+        model = trace[-1][0]
     # the precondition "positive class mass" must hold for every M-step
     for _, aff in trace:
         if not class_mass_positive(aff, case):
